@@ -78,6 +78,10 @@ type rootNodeLoc struct {
 	// More nodes to maybe reclaim when our reference count goes to 0.
 	// But they might be repeated, so we scan for them during reclaimation.
 	reclaimLater [3]*node
+
+	// Set by rootCAS once a newer version has replaced this one; the newer
+	// version may share any node of this version that is not marked.
+	superseded bool
 }
 
 // Name returns as a string the name of the collection
@@ -93,7 +97,9 @@ func (t *Collection) closeCollection() { // Just "close" is a keyword.
 	r := t.root
 	t.root = nil
 	t.rootLock.Unlock()
-	t.reclaimMarkUpdate(r.root, nil, &r.reclaimMark)
+	// The nodes of r may still be shared with other handles on r (snapshots,
+	// SetCollection on an existing name) and with newer versions, so they
+	// are not reclaimable yet; rootDecRefUnlocked decides when r dies.
 	if r != nil {
 		t.rootDecRef(r)
 	}
@@ -775,6 +781,9 @@ func (t *Collection) rootCAS(prev, next *rootNodeLoc) bool {
 		return false // TODO: Callers need to release resources.
 	}
 	t.root = next
+	if prev != nil {
+		prev.superseded = true
+	}
 
 	if prev != nil && prev.refs > 2 {
 		// Since the prev is in-use, hook up its chain to disallow
@@ -813,6 +822,11 @@ func (t *Collection) rootDecRefUnlocked(r *rootNodeLoc) {
 	}
 	if r.chainedCollection != nil && r.chainedRootNodeLoc != nil {
 		r.chainedCollection.rootDecRefUnlocked(r.chainedRootNodeLoc)
+	}
+	if !r.superseded {
+		// The last version of a closed collection: no newer version shares
+		// its nodes and all older versions are gone, so all of it is garbage.
+		t.markAllUnlocked(r.root, &r.reclaimMark)
 	}
 	t.reclaimNodesUnlocked(r.root.Node(), &r.reclaimLater, &r.reclaimMark)
 	for i := 0; i < len(r.reclaimLater); i++ {
